@@ -13,6 +13,7 @@ import (
 	"time"
 
 	"github.com/btcsuite/btcd/chainhash/v2"
+	"github.com/btcsuite/btclog"
 	"github.com/btcsuite/btcd/wire/v2"
 	"github.com/btcsuite/btcwallet/walletdb"
 	_ "github.com/btcsuite/btcwallet/walletdb/bdb"
@@ -25,6 +26,17 @@ import (
 )
 
 func init() {
+	if os.Getenv("VERIF_DEBUG_LOG") == "buffer" {
+		b := btclog.NewBackend(&DebugLog)
+		l := b.Logger("NTRN")
+		l.SetLevel(btclog.LevelDebug)
+		neutrino.UseLogger(l)
+	} else if os.Getenv("VERIF_DEBUG_LOG") != "" {
+		b := btclog.NewBackend(os.Stderr)
+		l := b.Logger("NTRN")
+		l.SetLevel(btclog.LevelDebug)
+		neutrino.UseLogger(l)
+	}
 	// Exported configuration knobs of the client (lnd sets them too): short
 	// values keep liar / silent-peer scenarios affordable. They are part of
 	// the configuration the scenarios run under, not code changes.
@@ -36,6 +48,24 @@ func init() {
 	neutrino.QueryRejectTimeout = 300 * time.Millisecond
 	neutrino.ConnectionRetryInterval = 300 * time.Millisecond
 }
+
+// DebugLog collects client logs when VERIF_DEBUG_LOG=buffer.
+var DebugLog lockedBuffer
+
+type lockedBuffer struct {
+	mu sync.Mutex
+	b  []byte
+}
+
+func (l *lockedBuffer) Write(p []byte) (int, error) {
+	l.mu.Lock()
+	l.b = append(l.b, p...)
+	l.mu.Unlock()
+	return len(p), nil
+}
+
+// String returns the collected log.
+func (l *lockedBuffer) String() string { l.mu.Lock(); defer l.mu.Unlock(); return string(l.b) }
 
 // World is one simulated network plus one client.
 type World struct {
